@@ -473,6 +473,18 @@ func (se *symExec) execStmt(s ast.Stmt, st *sstate) (fall []*sstate, rets []path
 					}
 					continue
 				}
+				// inside a helper that was looked through: a boolean result that is a test (a && b, x == y, !p)
+				// is decided here, so that the caller's `if helper(…)` branches on the test itself
+				if len(se.inStack) > 0 && len(x.Results) == 1 && se.isBoolTest(rexpr) && isNewFunc(FuncID(se.inStack[len(se.inStack)-1])) {
+					tr, fa := se.branch(rexpr, a.st)
+					for _, t := range tr {
+						next = append(next, acc{t, []val{{kind: vBool, bk: true, b: true}}})
+					}
+					for _, f := range fa {
+						next = append(next, acc{f, []val{{kind: vBool, bk: true, b: false}}})
+					}
+					continue
+				}
 				for _, e := range se.eval(rexpr, a.st) {
 					next = append(next, acc{e.st, append(append([]val{}, a.vs...), e.v)})
 				}
@@ -567,6 +579,30 @@ func (se *symExec) execStmt(s ast.Stmt, st *sstate) (fall []*sstate, rets []path
 }
 
 func (se *symExec) execAssign(x *ast.AssignStmt, st *sstate) []*sstate {
+	// flag := a && b (|| , !): a local flag that holds a compound test is decided where it is computed, so
+	// that `flag := a && b; if flag` and `if a && b` give the same tests
+	if (x.Tok == token.ASSIGN || x.Tok == token.DEFINE) && len(x.Lhs) == 1 && len(x.Rhs) == 1 && identOf(x.Lhs[0]) != nil && identOf(x.Lhs[0]).Name != "_" {
+		compound := false
+		switch r := unparen(x.Rhs[0]).(type) {
+		case *ast.BinaryExpr:
+			compound = r.Op == token.LAND || r.Op == token.LOR
+		case *ast.UnaryExpr:
+			compound = r.Op == token.NOT
+		}
+		if compound && se.isBoolTest(x.Rhs[0]) && noFlagLeaves(x.Rhs[0]) {
+			tr, fa := se.branch(x.Rhs[0], st)
+			var out []*sstate
+			for _, t := range tr {
+				se.assignTo(x.Lhs[0], val{kind: vBool, bk: true, b: true}, t, x.Pos(), "true")
+				out = append(out, t)
+			}
+			for _, f := range fa {
+				se.assignTo(x.Lhs[0], val{kind: vBool, bk: true, b: false}, f, x.Pos(), "false")
+				out = append(out, f)
+			}
+			return out
+		}
+	}
 	// compound assignment  a op= b
 	if x.Tok != token.ASSIGN && x.Tok != token.DEFINE {
 		var out []*sstate
@@ -674,6 +710,44 @@ func (se *symExec) execAssign(x *ast.AssignStmt, st *sstate) []*sstate {
 		}
 	}
 	return out
+}
+
+// isBoolTest: a boolean expression built from comparisons, calls and logical operators (not a constant or a plain variable).
+func (se *symExec) isBoolTest(e ast.Expr) bool {
+	tv, ok := se.info.Types[e]
+	if !ok || tv.Value != nil {
+		return false
+	}
+	if b, ok := tv.Type.Underlying().(*types.Basic); !ok || b.Kind() != types.Bool {
+		return false
+	}
+	switch x := unparen(e).(type) {
+	case *ast.BinaryExpr:
+		return true
+	case *ast.UnaryExpr:
+		return x.Op == token.NOT
+	case *ast.CallExpr:
+		return true
+	}
+	return false
+}
+
+// noFlagLeaves: every leaf of the logical expression is a comparison or a call, none a plain variable.
+func noFlagLeaves(e ast.Expr) bool {
+	switch x := unparen(e).(type) {
+	case *ast.BinaryExpr:
+		if x.Op == token.LAND || x.Op == token.LOR {
+			return noFlagLeaves(x.X) && noFlagLeaves(x.Y)
+		}
+		return true
+	case *ast.UnaryExpr:
+		if x.Op == token.NOT {
+			return noFlagLeaves(x.X)
+		}
+	case *ast.CallExpr:
+		return true
+	}
+	return false
 }
 
 func isPurePath(e ast.Expr) bool {
@@ -1723,19 +1797,25 @@ func (se *symExec) execTypeSwitch(x *ast.TypeSwitchStmt, st *sstate) (fall []*ss
 				if cc.List == nil {
 					hasDefault = true
 				}
-				s := r.st.clone()
-				if obj := se.info.Implicits[cc]; obj != nil {
-					s.vars[obj] = r.v
-					se.nameByDesc(obj, r.v)
-				}
-				lbl := "default"
+				// `case A, B:` is one clause for each of the listed types
+				lbls := []string{"default"}
 				if cc.List != nil {
-					lbl = exprStr(cc.List[0])
+					lbls = nil
+					for _, t := range cc.List {
+						lbls = append(lbls, exprStr(t))
+					}
 				}
-				s.conds = append(s.conds, se.canon(operand)+".(type)=="+lbl)
-				f, rr := se.execStmts(cc.Body, []*sstate{s})
-				fall = append(fall, f...)
-				rets = append(rets, rr...)
+				for _, lbl := range lbls {
+					s := r.st.clone()
+					if obj := se.info.Implicits[cc]; obj != nil {
+						s.vars[obj] = r.v
+						se.nameByDesc(obj, r.v)
+					}
+					s.conds = append(s.conds, se.canon(operand)+".(type)=="+lbl)
+					f, rr := se.execStmts(cc.Body, []*sstate{s})
+					fall = append(fall, f...)
+					rets = append(rets, rr...)
+				}
 			}
 			if !hasDefault {
 				fall = append(fall, r.st)
